@@ -383,6 +383,7 @@ para				::= defs.
 	#include "parser.h"
 	#include "stack.h"
 	#include "token.h"
+	#include "verif_hooks.h"
 }
 
 
@@ -390,6 +391,7 @@ para				::= defs.
 //	http://stackoverflow.com/questions/11705737/expected-token-using-lemon-parser-generator
 
 %syntax_error {
+	MMD6_EVENT(MMD6_EV_PARSE_SYNTAX, yymajor, 0);
 #ifndef NDEBUG
 	fprintf(stderr,"Parser syntax error.\n");
 	int n = sizeof(yyTokenName) / sizeof(yyTokenName[0]);
@@ -408,5 +410,6 @@ para				::= defs.
 
 %parse_failure {
 	fprintf(stderr, "Parser failed to successfully parse.\n");
+	MMD6_EVENT(MMD6_EV_PARSE_FAILED, 0, 0);
 }
 
